@@ -11,6 +11,8 @@ def run(ctx):
     # 1. TLC decides the design: every db x every root list (any order) x GETNEXT fetcher
     ctx.model_check("MC_Walk", "getnext", constants=W.consts("CandQ" if q else "CandT", "RootC", 3, "{0}", False),
                     invariants=W.INV_CONF, constraints=["NreqCap"], must_cover=["Round", "Done"])
+    ctx.model_check("MC_Walk", "getnext_terminates", constants=W.consts("CandQ" if q else "CandT", "RootC", 2 if q else 3, "{0}", False),
+                    properties=["Terminates"], must_cover=["Round"])    # liveness under weak fairness, no state constraint
     if not q:
         # self-test: the pinned first request in caller order must be refuted (vacuity guard for Complete)
         ctx.model_check("MC_Walk", "selftest_first_order", constants=W.consts("CandQ", "RootC", 3, "{0}", False, PinFirstOrder=True),
